@@ -93,6 +93,24 @@ Inductive interleaving {A : Type} : list (list A) -> list A -> Prop :=
     interleaving (pre ++ l :: post) out ->
     interleaving (pre ++ (x :: l) :: post) (x :: out).
 
+(* The collector OUTLIVES a run (the caller owns the Arc): a later run on the same collector finds
+   what the earlier ones left. One run turns the content `before` into `after`:
+     - a run that completes appended some interleaving of its partitions' append sequences;
+     - a run that panics (fail-fast) changed nothing: in FailFast mode no partition ever touches
+       the collector (the panic! is raised without taking the lock), so nothing is appended and the
+       mutex is not poisoned;
+   ErrorCollector::clear() empties it. *)
+Inductive run_effect {R E : Type} (validate : R -> vresult E) (m : mode) (has_collector : bool)
+          (ps : list (list R)) (before : list (entry E)) : list (entry E) -> Prop :=
+| re_completed : forall rs app,
+    run_parts validate m has_collector ps = Ok rs ->
+    interleaving (logs_of rs) app ->
+    run_effect validate m has_collector ps before (before ++ app)
+| re_panicked :
+    run_parts validate m has_collector ps = Panic ->
+    run_effect validate m has_collector ps before before.
+Definition collector_clear {E : Type} (content : list (entry E)) : list (entry E) := [].
+
 (* ---- specification-side vocabulary (independent of apply) ---- *)
 Section Spec.
   Context {R E : Type}.
